@@ -13,6 +13,12 @@ def _S(e):
     return json.dumps(e, sort_keys=True)
 
 
+def _strip(e):
+    while isinstance(e, dict) and e.get("k") in ("cast", "icast"):
+        e = e["e"]
+    return e
+
+
 def _walk(e, fn):
     if isinstance(e, dict):
         fn(e)
@@ -171,6 +177,28 @@ def _inline_at(g, blk, idx, h, tag):
                 node["name"] = lren[node["name"]]
     retvar = "__ret_" + tag
     has_value = h.get("ret_t", "void") != "void"
+    callkey0 = _S(call_ev["e"])
+    post0 = blk["events"][idx + 1:]
+    # (a) coalescing: `T x = helper(..)` / `x = helper(..)` directly after the call -> the helper's returns assign x themselves
+    coalesce = None
+    if has_value and post0:
+        n0 = post0[0]
+        if n0.get("ev") == "decl" and n0.get("init") is not None and _S(_strip(n0["init"])) == callkey0 and not n0.get("static"):
+            coalesce = ("decl", n0)
+        elif n0.get("ev") == "assign" and n0["e"].get("op") == "=" and _S(_strip(n0["e"].get("r"))) == callkey0 \
+                and _strip(n0["e"].get("l")).get("k") == "var":
+            coalesce = ("assign", n0)
+    # (b) jump threading: `if (helper(..))` / `if (!helper(..))` with nothing else in the block -> every return of the helper
+    #     jumps (or branches on its returned expression) straight to the branch targets
+    thread = None
+    if has_value and not post0 and "term" in blk and blk["term"].get("cond") is not None and len(blk["succs"]) == 2:
+        c0 = _strip(blk["term"]["cond"])
+        neg = False
+        while isinstance(c0, dict) and c0.get("k") == "un" and c0.get("op") == "!":
+            neg = not neg
+            c0 = _strip(c0.get("e"))
+        if isinstance(c0, dict) and _S(c0) == callkey0 and all(x is not None for x in blk["succs"]):
+            thread = (blk["succs"][1], blk["succs"][0]) if neg else (blk["succs"][0], blk["succs"][1])
     new_blocks = []
     for b in hc["blocks"]:
         if b["id"] == hc["exit"]:
@@ -184,10 +212,24 @@ def _inline_at(g, blk, idx, h, tag):
             nb["label"] = b["label"]
         for ev in b["events"]:
             if ev.get("ev") == "ret":
+                if thread is not None and ev.get("e") is not None:
+                    cv = _strip(ev["e"]).get("cv") if isinstance(_strip(ev["e"]), dict) else None
+                    if cv is not None:
+                        nb["succs"] = [thread[0] if cv else thread[1]]
+                        nb.pop("term", None)
+                    else:
+                        nb["succs"] = [thread[0], thread[1]]
+                        nb["term"] = {"kind": "IfStmt", "line": ev["line"], "cond": ev["e"]}
+                    continue
                 if has_value and ev.get("e") is not None:
+                    if coalesce is not None:
+                        tgt = coalesce[1]
+                        lhs = ({"k": "var", "name": tgt["name"], "vk": "local", "ct": tgt.get("ct", ""), "t": tgt.get("t", "")} if coalesce[0] == "decl"
+                               else copy.deepcopy(tgt["e"]["l"]))
+                    else:
+                        lhs = {"k": "var", "name": retvar, "vk": "local", "ct": h["ret_t"], "t": h["ret_t"]}
                     nb["events"].append({"line": ev["line"], "ev": "assign",
-                                         "e": {"k": "assign", "op": "=", "l": {"k": "var", "name": retvar, "vk": "local", "ct": h["ret_t"], "t": h["ret_t"]},
-                                               "r": ev["e"], "t": h["ret_t"]}})
+                                         "e": {"k": "assign", "op": "=", "l": lhs, "r": ev["e"], "t": h["ret_t"]}})
                 nb["succs"] = [cont_id]
                 nb.pop("term", None)
             else:
@@ -195,6 +237,12 @@ def _inline_at(g, blk, idx, h, tag):
         new_blocks.append(nb)
     # continuation block
     post = blk["events"][idx + 1:]
+    if coalesce is not None:
+        post = post[1:]
+        if coalesce[0] == "decl":
+            d0 = dict(coalesce[1])
+            d0.pop("init", None)
+            pre_decls.append(d0)
     cont = {"id": cont_id, "succs": blk["succs"], "events": post}
     if "term" in blk:
         cont["term"] = blk["term"]
@@ -221,3 +269,6 @@ def _inline_at(g, blk, idx, h, tag):
     blk.pop("term", None)
     g["blocks"].extend(new_blocks)
     g["blocks"].append(cont)
+    # (&X)->f ==> X.f after substituting `&X` for a pointer parameter
+    import alias as _alias
+    _alias._fix_addr_members(g["blocks"])
